@@ -2,11 +2,13 @@
 # Re-evaluate every seeded change under /tmp/seeded_out against its property's check (and C01/C02 where relevant), in a scratch worktree.
 # usage: eval_all_seeds.sh [ID ...]
 cd /verif
-for d in /tmp/seeded_out/C*/m*; do
+ROOT=${SEED_ROOT:-/tmp/seeded_out}
+WT=${WT_ROOT:-/tmp/wt}
+for d in $ROOT/C*/m*; do
   [ -f "$d/patch.diff" ] || continue
   id=$(basename $(dirname $d))
   if [ $# -gt 0 ]; then case " $* " in *" $id "*) ;; *) continue;; esac; fi
-  wt=/tmp/wt/$id
+  wt=$WT/$id
   [ -d "$wt" ] || git -C /repo worktree add -q $wt HEAD
   extra=""
   case $id in C01) extra="C09";; C02) extra="C01";; esac
